@@ -212,6 +212,13 @@ impl Prog {
         Prog { body, n_saves }
     }
 
+    /// Number of save slots (read-only accessor for the external verification harness).
+    #[cfg(fancy_regex_verif)]
+    #[doc(hidden)]
+    pub fn verif_n_saves(&self) -> usize {
+        self.n_saves
+    }
+
     #[doc(hidden)]
     pub(crate) fn debug_print(&self, writer: &mut Formatter<'_>) -> core::fmt::Result {
         for (i, insn) in self.body.iter().enumerate() {
